@@ -17,6 +17,8 @@ def oracle(c, d, kind, im):
     if im[0] == 'EXC':
         return 'unhandled exception: %s' % im[1]
     if im[0] == 'HANG':
+        if im[1].startswith(parsecase.OUTSIDE):
+            return None     # self-calling / multiplying definitions of the document
         return 'no result: %s' % im[1]
     if im[0] == 'FATAL':
         # documented: module loading problems, default equation environment
@@ -64,6 +66,13 @@ def run(tier, seed, build, res):
         for multi in (False, True):
             cases.append((parsecase.T2T(latex, files=dict(universe.FILES),
                                         multi=multi, lang='en-GB'), None, 'directed'))
+    if tier != 'quick':
+        # outside the claim (self-calling definitions): must not raise an alarm
+        for latex in ('\\newcommand\\footnote\\footnote-- \\footnote x',
+                      '\\newcommand{\\x}{\\textbf{\\x}}\\x',
+                      '\\def\\x{a\\x}\\x'):
+            cases.append((parsecase.T2T(latex, files=dict(universe.FILES), lang='en-GB'),
+                          None, 'outside'))
     for j in core.load_corpus('C07'):
         cases.append((parsecase.T2T.from_json(j), None, 'corpus'))
     for i in range(0, len(cases), 2000):
